@@ -76,7 +76,13 @@ fn alphabet() -> Vec<Spec> {
         Spec { name: "semanticTokens with malformed params", msg: json!({"id":0,"method":"textDocument/semanticTokens/full","params":{"nope":1}}), expect: Expect::Answer },
         n("didOpen with malformed params", json!({"method":"textDocument/didOpen","params":{"nope":1}})),
         n("didChange with malformed params", json!({"method":"textDocument/didChange","params":{"textDocument":{"uri":A}}})),
+        n("client response (null result)", json!({"id":7,"result":null})),
+        n("client response (string id)", json!({"id":"abc","result":{"x":1}})),
+        n("didClose(a)", json!({"method":"textDocument/didClose","params":{"textDocument":{"uri":A}}})),
     ]
+    .into_iter()
+    .chain(crate::lspx::neutral_notifications(A, B).into_iter().map(|(name, msg)| Spec { name, msg, expect: Expect::Silent }))
+    .collect()
 }
 
 struct HistResult {
